@@ -804,8 +804,14 @@ def root_faults():
 
 def catalogue(quick=False):
     """[(label, target)] — bases x single faults, in every format / string encoding (the quick
-    tier leaves out fixed-width unicode in zarr format 3)"""
+    tier leaves out fixed-width unicode in zarr format 3).  Every fault runs in both tiers; every
+    `on_disk`-th one is materialised as a directory store and also goes through `geff validate`
+    (measured: 0.5 s CPU per such case — zarr's LocalStore through its event loop, three validations —
+    against 0.01 s on a MemoryStore; 80 % of the quick tier's implementation time at every 11th), so
+    the quick tier takes every 33rd and the thorough tier every 11th; every kind of StoreLike argument
+    is in `store_variants` in both tiers"""
     cases = []
+    on_disk = 33 if quick else 11
     variants = [(2, "vlen"), (3, "vlen"), (2, "fixed")] + ([] if quick else [(3, "fixed")])
     k = 0
     for bname, (root, attrs) in bases().items():
@@ -816,12 +822,12 @@ def catalogue(quick=False):
             cases.append((f"{bname}|base", target(root, attrs, fmt, "memory", strenc=strenc)))
             for lab, r in tree_faults(root):
                 k += 1
-                cases.append((f"{bname}|{lab}", target(r, attrs, fmt, "path" if k % 11 == 0 else "memory", strenc=strenc)))
+                cases.append((f"{bname}|{lab}", target(r, attrs, fmt, "path" if k % on_disk == 0 else "memory", strenc=strenc)))
             if strenc == "fixed":
                 continue   # the metadata faults do not depend on the string encoding
             for lab, a in meta_faults(root, attrs):
                 k += 1
-                cases.append((f"{bname}|meta|{lab}", target(root, a, fmt, "path" if k % 11 == 0 else "memory", strenc=strenc)))
+                cases.append((f"{bname}|meta|{lab}", target(root, a, fmt, "path" if k % on_disk == 0 else "memory", strenc=strenc)))
     for lab, root, attrs in handmade():
         for fmt, strenc in variants[:2] + ([variants[2]] if "str" in lab else []):
             cases.append((f"handmade|{lab}", target(root, attrs, fmt, strenc=strenc)))
